@@ -523,7 +523,7 @@ theorem prev_spec (ops : BlockOps β) (load : Nat → Option β) (fixF1 : Bool) 
 /-- `move_on_key_lower_than_or_equal_to` = `ge`, then `prev` (at most `levels + 1` more loads,
     since `ge` answered from a held data block) or `last` (at most `levels + 2` more loads).
     This is the worst case of all operations. -/
-theorem le_spec (ops : BlockOps β) (load : Nat → Option β) (fixF1 : Bool) (q : Bytes) (c : RC β)
+private theorem le_spec (ops : BlockOps β) (load : Nat → Option β) (fixF1 : Bool) (q : Bytes) (c : RC β)
     (hs : Shape c) : Post c (c.le ops load fixF1 q).1 (2 * c.levels + 4) := by
   obtain ⟨hg, hg'⟩ := ge_spec ops load q c hs
   unfold RC.le
